@@ -271,8 +271,8 @@ func viablePrefixFull(toks []htok) (far int, sentence bool, keyStart int, kindMi
 // ---- canonical tree of a parsed value (public API only) ----------------------------------------
 
 func toNode(v any, depth int) (*node, error) {
-	if depth > 64 {
-		return nil, fmt.Errorf("value nested deeper than 64")
+	if depth > 10000 {
+		return nil, fmt.Errorf("value nested deeper than 10000")
 	}
 	switch x := v.(type) {
 	case nil:
